@@ -42,13 +42,40 @@ def select_semantics(prog, res):
                  "select does not use std::regex_match for the name (%s): a pattern matching part of a name would select the device"
                  % (rs or "no regex_match call"))
     # subject of the match is the identifier's name
+    from .. import congr as _congr
+
+    def resolve_local(bid, i, n, depth=0):
+        n0 = ir.strip(n)
+        if isinstance(n0, dict) and n0.get("k") == "var" and "p" not in n0 and depth < 4:
+            d = _congr.reaching_def(f, (bid, i), n0["id"])
+            if d is not None:
+                return resolve_local(bid, i, d, depth + 1)
+        return n0
     for b, i, s, c in rm:
         subj = c["args"][0] if c.get("args") else None
+        subj = resolve_local(b.id, i, subj)
         flds = [y["f"] for y in ir.walk(subj) if y.get("k") == "mem"]
         ok = "name" in flds
         (res.oblige(R, "match subject is the enumerated name", True, ir.render(subj), f.loc(s)) if ok else
          res.fail(R, "match subject is the enumerated name", "R-SELECT|subject", f.loc(s),
                   "regex_match is applied to %s, not to the device name" % ir.render(subj)))
+    # (a') nothing but regex_match compares the enumerated name
+    OKAY = ("std::regex_match", "std::char_traits", "aq_logger", "strlen", "strnlen", "snprintf")
+    for b, i, s, c in calls:
+        fn = c.get("fn") or ""
+        if fn.startswith(OKAY) or not c.get("args"):
+            continue
+        takes_name = False
+        for a in c["args"]:
+            a0 = resolve_local(b.id, i, a)
+            if any(isinstance(y, dict) and y.get("k") == "mem" and y.get("f") == "name" and
+                   any(isinstance(z, dict) and z.get("k") == "mem" and z.get("f") in ("identifier_", "identifier") for z in ir.walk(y))
+                   for y in ir.walk(a0)):
+                takes_name = True
+        if takes_name:
+            res.fail(R, "only regex_match compares the enumerated name", "R-SELECT|other-matcher|%s" % fn.split("<")[0], f.loc(s),
+                     "select hands the enumerated device name to %s: a comparison other than std::regex_match over the whole name takes part in the selection "
+                     "(a prefix / substring / case-sensitive test selects devices the pattern does not match, or rejects ones it matches)" % fn.split("<")[0])
     # (b) icase
     def from_name(c):
         prm = [p for p in f.params if "string" in p.get("t", "") or p.get("n") == "name"]
